@@ -1,5 +1,6 @@
 import CgreenModel.Model.PerTest
 import CgreenModel.Props.C17
+import CgreenModel.Props.C11
 /-!
 # C13 — forked, in-process and single-test execution give the same results
 For tests that complete normally. (1) The framework's own per-test state is reset by the prologue of
@@ -103,5 +104,11 @@ theorem C13_F05_witness :
 
 /-- The global is the program's, not the framework's: the excluded case is real. -/
 example : runInproc resetPerTest {} [[.writeGlobal], [.readGlobal]] ≠ runFork resetPerTest {} [[.writeGlobal], [.readGlobal]] := by decide
+
+/-- The plain XML reporter's element for a test is the same in the three modes: what reaches the suite's file does not depend
+on whether the test had a process of its own (corollary of `C11_buffer_each_once`). -/
+theorem C13_xml_modes_agree (p p' : XmlBuf.Proc) (sh : XmlBuf.Shared) (child parent : List XmlBuf.Text) :
+    (XmlBuf.runTest true .length p sh child parent).2.2 = (XmlBuf.runTest false .length p' sh child parent).2.2 := by
+  rw [(C11_buffer_each_once true p sh child parent).1, (C11_buffer_each_once false p' sh child parent).1]
 
 end Cgreen
